@@ -15,20 +15,132 @@ package bcl
 //@ slot lexer.lpUpd (s string, prefix int)
 //@   modifies lineCalc.lfs
 //
-// next(): refill and decode one character.
+// Cursor typestate of the lexer (ghost): 0 = a character was just read and may
+// be given back once, 1 = it was given back (and may be re-taken), 2 = neither.
+//@ ghost var bk int
+//@ ghost var lx_fin bool            // the last token sent was a finalizer (tFAIL, tEOF)
+//@ ghost var lx_err bool            // the last token sent was tERR
+//@ ghost var ev_sent_tokens token   // the last token sent
+//@ ghost var ev_close_tokens int
+//
 // Window invariant: the window input[0..len) holds the stream bytes
-// [posShift, posShift+len), and posShift+len is the number of bytes received.
+// [posShift, posShift+len), and posShift+len is the number of bytes received;
+// the cursor stays inside the window, also across backup/unbackup.
+//@ invariant [C06,C07,C08,C11,C20] lexwin (l *lexer): 0 <= l.start && l.start <= l.pos && l.pos <= len(l.input) && l.posShift >= 0 && l.posShift + len(l.input) == g.ev_bytes_inputs && l.lpUpd != nil && 0 <= l.width && l.width <= 4 && (g.bk == 0 ==> l.start <= l.pos - l.width) && (g.bk == 1 ==> l.pos + l.width <= len(l.input))
+//
+// next(): refill and decode one character.
+//@ group C06,C07,C08,C11
 //@ func (*lexer).next
-//@   requires window: 0 <= l.start && l.start <= l.pos && l.pos <= len(l.input) && l.posShift + len(l.input) == g.ev_bytes_inputs && l.lpUpd != nil && l.posShift >= 0
-//@   ensures window: 0 <= l.start && l.start <= l.pos && l.pos <= len(l.input) && l.posShift + len(l.input) == g.ev_bytes_inputs && l.lpUpd == old(l.lpUpd) && l.posShift >= 0
+//@   ensures same_updater: l.lpUpd == old(l.lpUpd)
 //@   ensures [C07,C11] end_of_input_only_when_closed: result == eof ==> g.ev_closed_inputs && l.pos == len(l.input) && l.width == 0
 //@   ensures [C07] token_start_is_absolute: l.posShift + l.start == old(l.posShift + l.start)
 //@   ensures [C07,C08] cursor_advances_by_width: result != eof ==> l.posShift + l.pos == old(l.posShift + l.pos) + l.width && 1 <= l.width && l.width <= 4
 //@   ensures [C07] end_keeps_cursor: result == eof ==> l.posShift + l.pos == old(l.posShift + l.pos)
 //@   ensures [C07] decoded_from_complete_character: result != eof ==> fullrune(l.input[l.pos - l.width:]) || g.ev_closed_inputs
 //@   ensures [C07] received_only_grows: g.ev_bytes_inputs >= old(g.ev_bytes_inputs) && (old(g.ev_closed_inputs) ==> g.ev_closed_inputs)
+//@   ensures may_give_back: g.bk == 0
 //@   assert [C07,C08] line_table_gets_the_absolute_offset_of_the_chunk: at slot.lexer.lpUpd: $prefix == g.ev_bytes_inputs - len($s) && $prefix >= 0
 //@   assert [C07,C08] line_table_gets_exactly_the_received_chunk: at slot.lexer.lpUpd: $s == g.ev_val_inputs
 //@   loop 1 invariant window: 0 <= l.start && l.start <= l.pos && l.pos <= len(l.input) && l.posShift + len(l.input) == g.ev_bytes_inputs && l.lpUpd == old(l.lpUpd) && l.lpUpd != nil && l.posShift >= 0
 //@   loop 1 invariant abstract_positions_kept: l.posShift + l.start == old(l.posShift + l.start) && l.posShift + l.pos == old(l.posShift + l.pos) && g.ev_bytes_inputs >= old(g.ev_bytes_inputs) && (old(g.ev_closed_inputs) ==> g.ev_closed_inputs)
-//@   modifies l.input, l.start, l.pos, l.posShift, l.width, lineCalc.lfs, g.ev_bytes_inputs, g.ev_closed_inputs, g.ev_val_inputs
+//@   modifies l.input, l.start, l.pos, l.posShift, l.width, lineCalc.lfs, g.ev_bytes_inputs, g.ev_closed_inputs, g.ev_val_inputs, g.bk
+//@   ghost bk = 0
+//
+//@ func (*lexer).backup
+//@   requires [C06,C07] only_once_per_next: g.bk == 0
+//@   ensures l.pos == old(l.pos) - l.width
+//@   modifies l.pos, g.bk
+//@   ghost bk = 1
+//@ func (*lexer).unbackup
+//@   requires [C06,C07] only_after_backup: g.bk == 1
+//@   ensures l.pos == old(l.pos) + l.width
+//@   modifies l.pos, g.bk
+//@   ghost bk = 0
+//@ func (*lexer).ignore
+//@   ensures l.start == l.pos
+//@   modifies l.start, g.bk
+//@   ghost bk = (g.bk == 1 ? 1 : 2)
+//@ func (*lexer).current
+//@   ensures [C07,C08] pending_token_text: result == l.input[l.start:l.pos]
+//@   modifies nothing
+//@ func (*lexer).peek
+//@   ensures [C07] cursor_kept: l.posShift + l.pos == old(l.posShift + l.pos) && l.posShift + l.start == old(l.posShift + l.start) && l.lpUpd == old(l.lpUpd)
+//@   ensures may_retake: g.bk == 1
+//@   ensures received_only_grows: g.ev_bytes_inputs >= old(g.ev_bytes_inputs) && (old(g.ev_closed_inputs) ==> g.ev_closed_inputs)
+//@   modifies l.input, l.start, l.pos, l.posShift, l.width, lineCalc.lfs, g.ev_bytes_inputs, g.ev_closed_inputs, g.ev_val_inputs, g.bk
+//
+// emission: the token protocol the parser relies on (assumed at nextToken) is
+// established here: types in range, an error token carries an error and is
+// followed by tFAIL, nothing follows a finalizer.
+//@ func (*lexer).emit
+//@   requires [C11] token_type_in_range: 0 <= t && t < tMAX && t != tERR
+//@   requires [C11] after_an_error_only_fail: g.lx_err ==> t == tFAIL
+//@   requires [C11] nothing_after_a_finalizer: !g.lx_fin
+//@   ensures [C08] token_position_is_its_absolute_end_offset: g.ev_sent_tokens.pos == l.posShift + l.pos && g.ev_sent_tokens.typ == t && g.ev_sent_tokens.val == old(l.input[l.start:l.pos])
+//@   ensures [C11] one_token_sent: g.ev_send_tokens == old(g.ev_send_tokens) + 1
+//@   ensures token_consumed: l.start == l.pos && l.pos == old(l.pos)
+//@   modifies l.start, g.ev_send_tokens, g.ev_sent_tokens, g.lx_fin, g.lx_err, g.bk
+//@   ghost lx_fin = t <= tEOF; lx_err = false; bk = (g.bk == 1 ? 1 : 2)
+//@ func (*lexer).emitError
+//@   requires [C11] nothing_after_a_finalizer: !g.lx_fin && !g.lx_err
+//@   ensures [C11] error_token_carries_an_error: g.ev_sent_tokens.typ == tERR && g.ev_sent_tokens.err != nil && g.ev_sent_tokens.pos == l.posShift + l.pos
+//@   ensures [C11] one_token_sent: g.ev_send_tokens == old(g.ev_send_tokens) + 1
+//@   modifies g.ev_send_tokens, g.ev_sent_tokens, g.lx_err
+//@   ghost lx_err = true
+//@ func (*lexer).fail
+//@   requires [C11] nothing_after_a_finalizer: !g.lx_fin && !g.lx_err
+//@   ensures [C11] error_then_fail_then_stop: result == nil && g.lx_fin && !g.lx_err && g.ev_send_tokens == old(g.ev_send_tokens) + 2 && g.ev_sent_tokens.typ == tFAIL
+//@   modifies l.start, g.ev_send_tokens, g.ev_sent_tokens, g.lx_fin, g.lx_err, g.bk
+//
+// helpers
+//@ slot runePred (r rune) bool
+//@   modifies nothing
+//@ func (*lexer).accept
+//@   ensures kept: l.lpUpd == old(l.lpUpd) && l.posShift + l.start == old(l.posShift + l.start) && g.bk <= 1
+//@   modifies l.input, l.start, l.pos, l.posShift, l.width, lineCalc.lfs, g.ev_bytes_inputs, g.ev_closed_inputs, g.ev_val_inputs, g.bk
+//@ func (*lexer).acceptRun
+//@   ensures kept: l.lpUpd == old(l.lpUpd) && l.posShift + l.start == old(l.posShift + l.start) && g.bk == 1
+//@   loop 1 invariant invs(l) && l.lpUpd == old(l.lpUpd) && l.posShift + l.start == old(l.posShift + l.start)
+//@   modifies l.input, l.start, l.pos, l.posShift, l.width, lineCalc.lfs, g.ev_bytes_inputs, g.ev_closed_inputs, g.ev_val_inputs, g.bk
+//@ func (*lexer).acceptRunFunc
+//@   callslot pred runePred
+//@   requires pred != nil
+//@   ensures kept: l.lpUpd == old(l.lpUpd) && l.posShift + l.start == old(l.posShift + l.start) && g.bk == 1
+//@   loop 1 invariant invs(l) && l.lpUpd == old(l.lpUpd) && l.posShift + l.start == old(l.posShift + l.start)
+//@   modifies l.input, l.start, l.pos, l.posShift, l.width, lineCalc.lfs, g.ev_bytes_inputs, g.ev_closed_inputs, g.ev_val_inputs, g.bk
+//
+// the token tables hold only proper token types (never a finalizer or tERR)
+//@ group C11,C06
+//@ global one_rune_tokens_are_proper: forall r rune :: has(oneRuneTokens, r) ==> tERR < oneRuneTokens[r] && oneRuneTokens[r] < tMAX
+//@ global two_rune_tokens_are_proper: forall r rune :: has(twoRuneTokens, r) ==> tERR < twoRuneTokens[r].typ && twoRuneTokens[r].typ < tMAX
+//@ global keywords_are_proper: forall w string :: has(keywords, w) ==> tERR < keywords[w] && keywords[w] < tMAX
+//@ func init
+//@   ensures true
+//
+// state functions: each returns nil exactly when it has sent a finalizer.
+//@ group C06,C07,C08,C11
+//@ slot stateFn (l *lexer)
+//@   requires [C11] running: !g.lx_fin && !g.lx_err
+//@   requires number_state_gives_back_first: self == fn("lexNumber") ==> g.bk == 0
+//@   ensures [C11] stops_exactly_after_a_finalizer: (result == nil) == g.lx_fin
+//@   ensures [C11] no_dangling_error: !g.lx_err
+//@   ensures number_state_gives_back_first: result == fn("lexNumber") ==> g.bk == 0
+//@   ensures [C11] tokens_only_added: g.ev_send_tokens >= old(g.ev_send_tokens)
+//@   modifies l.input, l.start, l.pos, l.posShift, l.width, lineCalc.lfs, g.ev_bytes_inputs, g.ev_closed_inputs, g.ev_val_inputs, g.bk, g.ev_send_tokens, g.ev_sent_tokens, g.lx_fin, g.lx_err
+//
+//@ func lexLineComment
+//@   implements stateFn
+//@   loop 1 invariant invs(l) && !g.lx_fin && !g.lx_err && g.ev_send_tokens == old(g.ev_send_tokens)
+//@ func lexKeywordOrIdent
+//@   implements stateFn
+//@   loop 1 invariant invs(l) && !g.lx_fin && !g.lx_err && g.ev_send_tokens == old(g.ev_send_tokens)
+//@ func lexQuote
+//@   implements stateFn
+//@   loop 1 invariant invs(l) && !g.lx_fin && !g.lx_err && g.ev_send_tokens == old(g.ev_send_tokens)
+//
+// the lexer goroutine: the token channel is closed exactly once, after a finalizer.
+//@ func (*lexer).run
+//@   callslot state stateFn
+//@   requires [C11] fresh: !g.lx_fin && !g.lx_err && g.ev_close_tokens == 0
+//@   ensures [C11] token_channel_closed_once_after_a_finalizer: g.ev_close_tokens == 1 && g.lx_fin && !g.lx_err
+//@   loop 1 invariant invs(l) && !g.lx_err && g.ev_close_tokens == 0 && ((state == nil) == g.lx_fin) && (state == fn("lexNumber") ==> g.bk == 0)
